@@ -734,6 +734,8 @@ impl ConnectionPool {
         // this is meant to avoid hitting instance 0 everytime if the sorting metric
         // ends up being the same for all instances
         candidates.shuffle(&mut thread_rng());
+        #[cfg(pgcat_verif)]
+        crate::verif::choice::order_candidates(&mut candidates);
 
         match effective_shard_id {
             Some(shard_id) => candidates.retain(|address| address.shard == shard_id),
@@ -927,6 +929,8 @@ impl ConnectionPool {
         error!("Banning instance {:?}, reason: {:?}", address, reason);
 
         let now = chrono::offset::Utc::now().naive_utc();
+        #[cfg(pgcat_verif)]
+        let now = crate::verif::clock::naive_utc(now);
         let mut guard = self.banlist.write();
 
         if let Some(client_info) = client_info {
@@ -990,6 +994,8 @@ impl ConnectionPool {
         let exceeded_ban_time = match read_guard[address.shard].get(address) {
             Some((ban_reason, timestamp)) => {
                 let now = chrono::offset::Utc::now().naive_utc();
+                #[cfg(pgcat_verif)]
+                let now = crate::verif::clock::naive_utc(now);
                 match ban_reason {
                     BanReason::AdminBan(duration) => {
                         now.timestamp() - timestamp.timestamp() > *duration
